@@ -10,6 +10,7 @@ import (
 	"context"
 	"encoding/binary"
 	"encoding/json"
+	"errors"
 	"fmt"
 	"io"
 	"os"
@@ -68,9 +69,11 @@ func scanOutcome(c *acCase, kind string, file []byte) (n int, bad bool, end stri
 		}
 	}
 	switch kind {
-	case "br-next", "br-next-plain", "br-skip", "br-alt", "br-skip-bufio", "br-next-dataerr", "br-skip-dataerr", "br-next-zero", "br-skip-zero":
+	case "br-next", "br-next-plain", "br-skip", "br-alt", "br-skip-bufio", "br-next-dataerr", "br-skip-dataerr", "br-next-zero", "br-skip-zero", "br-skip-noend":
 		var r io.Reader = bytes.NewReader(file)
 		switch kind {
+		case "br-skip-noend": // a seeker that cannot tell where it ends: SkipNext may fail, it must not take a cut for the end
+			r = &noEndSeeker{bytes.NewReader(file)}
 		case "br-next-plain":
 			r = &plainReader{bytes.NewReader(file)}
 		case "br-skip-bufio": // a buffered stream (has Discard, ReadByte)
@@ -139,8 +142,19 @@ func scanOutcome(c *acCase, kind string, file []byte) (n int, bad bool, end stri
 	}
 }
 
+// noEndSeeker reads and seeks, but not relative to its end (a stream of unknown length behind a seekable window).
+type noEndSeeker struct{ r *bytes.Reader }
+
+func (n *noEndSeeker) Read(p []byte) (int, error) { return n.r.Read(p) }
+func (n *noEndSeeker) Seek(off int64, whence int) (int64, error) {
+	if whence == io.SeekEnd {
+		return 0, errors.New("harness: this source cannot seek relative to its end")
+	}
+	return n.r.Seek(off, whence)
+}
+
 func truncReaders(c *acCase) []string {
-	rs := []string{"br-next", "br-next-plain", "br-skip", "br-alt", "br-skip-bufio", "br-next-dataerr", "br-skip-dataerr", "br-next-zero", "br-skip-zero", "inspect"}
+	rs := []string{"br-next", "br-next-plain", "br-skip", "br-alt", "br-skip-bufio", "br-next-dataerr", "br-skip-dataerr", "br-next-zero", "br-skip-zero", "br-skip-noend", "inspect"}
 	if c.A.Ver == 1 {
 		rs = append(rs, "root-reader", "int-reader")
 		if len(c.A.Roots) > 0 {
@@ -333,6 +347,14 @@ func runHashFuzz(args []string) int {
 	for _, secs := range [][]string{{"b1", "b4"}, {"b3", "b5", "b6"}, {"b9", "b12", "b13"}, {"b8", "b10", "b1", "b2"}} {
 		for _, ver := range []int{1, 2} {
 			a := Arch{Roots: []string{"b1"}, Secs: secs, Ver: ver, Idx: "mh"}
+			bases = append(bases, a.build())
+		}
+	}
+	// archives holding a block that does not verify: other data under a real CID (b18), no registered hasher (b26),
+	// a sha2-256 multihash that carries one digest byte too many (b27): no verifying reader may hand these out
+	for _, secs := range [][]string{{"b1", "b18", "b4"}, {"b26", "b4"}, {"b4", "b27", "b1"}} {
+		for _, ver := range []int{1, 2} {
+			a := Arch{Roots: []string{"b4"}, Secs: secs, Ver: ver, Idx: "mh"}
 			bases = append(bases, a.build())
 		}
 	}
